@@ -1437,12 +1437,10 @@ def threshold_hit_cases(ctx):
         for (n1, g1, n2, g2) in (lst if ctx.tier == 'thorough' and len(lst) <= 3000 else rng.sample(lst, min(len(lst), ctx.n(40, 1500)))):
             # dyadic cell values (sums exact): expressing cells alternate hi/hi+1, the others 0 / 0.5
             if kind == 'fold=4/5':
-                # mean1 = 4/5 + 9 exactly (values 9.0 / 10.0: 4 of 5 cells at 10), mean2 = 9: fold = 4/5
-                Xa = np.array([[10.0 if i % 5 < 4 else 9.0] for i in range(n1)])
-                Xb = np.array([[9.0 + (0.5 if i % 2 == 0 else -0.5) * (i // 2 * 2 + 1 < n2)] for i in range(n2)])
-                if abs(float(Xb.mean()) - 9.0) > 0:
-                    Xb[:] = 9.0
-                    Xb[0, 0], Xb[1, 0] = 9.5, 8.5
+                # mean1 = 4/5 exactly as a rational (4 of every 5 cells at 1.0, the others 0), mean2 = 0:
+                # fold = 4/5 = log2_fold_min_th as written; pij = 4/5 against 0
+                Xa = np.array([[1.0 if i % 5 < 4 else 0.0] for i in range(n1)])
+                Xb = np.zeros((n2, 1))
             else:
                 hi_a, hi_b = (2.0, 9.0) if kind != 'q1=1/10' else (2.0, 12.0)
                 Xa = np.array([[hi_a + (i % 2) if i < g1 else 0.5 * (i % 2)] for i in range(n1)])
